@@ -19,6 +19,8 @@
 
 #include <cerrno>
 #include <cstring>
+#include <map>
+#include <memory>
 #include <sstream>
 
 using namespace UTAP;
@@ -78,6 +80,44 @@ static json errs_as_library_renders(const std::vector<UTAP::error_t>& errs)
         a.push_back(j);
     }
     return a;
+}
+
+
+// documents that a client keeps alive between calls: slot name -> (id of the model it was read from, the document)
+struct Slot
+{
+    std::string model;
+    std::unique_ptr<Document> doc;
+    uint32_t loaded_at = 0;
+    int uses = 0;
+};
+static std::map<std::string, Slot> slots;
+
+// the document in `slot` holds model `model`; read it (XML buffer, or XTA text when "ctxkind" says so) if the slot holds
+// something else.  What the read itself returns is not part of the event's result: the event is "this call on that document".
+static Document& slot_document(const json& ev, json& out)
+{
+    std::string name = ev.value("slot", "A");
+    std::string model = ev.value("model", "");
+    Slot& s = slots[name];
+    if (!s.doc || s.model != model) {
+        s.doc = std::make_unique<Document>();
+        s.model = model;
+        s.loaded_at = tracker.position;
+        s.uses = 0;
+        std::string ctx = ev.value("ctx", "");
+        bool ok = ev.value("ctxkind", "xml") == "xta" ? parse_XTA(ctx.c_str(), s.doc.get(), true)
+                                                       : parse_XML_buffer(ctx.c_str(), s.doc.get(), true) == 0;
+        if (!ok || s.doc->has_errors())
+            out["harness_error"] = "slot model rejected: " + (s.doc->get_errors().empty() ? std::string("?") : s.doc->get_errors()[0].msg);
+    }
+    ++s.uses;
+    return *s.doc;
+}
+
+static json errs_from(const std::vector<UTAP::error_t>& errs, size_t from)
+{
+    return errs_as_library_renders(std::vector<UTAP::error_t>(errs.begin() + std::min(from, errs.size()), errs.end()));
 }
 
 static void observe(Document& doc, json& out, bool dump)
@@ -224,6 +264,39 @@ static json run_event(const json& ev)
             }
         });
         observe(*doc, out, builder == "doc" || builder == "throwing");
+    } else if (kind == "query_on" || kind == "block_on") {
+        // one call against a document that stays alive between calls
+        std::string text = ev["text"];
+        guarded(out, [&] {
+            Document& d = slot_document(ev, out);
+            size_t ne = d.get_errors().size(), nw = d.get_warnings().size();
+            if (kind == "query_on") {
+                TigaPropertyBuilder pb(d);
+                out["ret"] = parseProperty(text.c_str(), &pb);
+                json props = json::array();
+                for (auto& p : pb.getProperties())
+                    props.push_back({(int)p.type, sexpr(p.intermediate, {})});
+                out["props"] = props;
+            } else {
+                ExpressionBuilder eb(d);
+                out["ret"] = parse_XTA(text.c_str(), &eb, newxta, (xta_part_t)ev.value("part", (int)S_EXPRESSION), ev.value("xpath", ""));
+                json fr = json::array();
+                for (size_t i = 0; i < eb.getExpressions().size(); ++i)
+                    fr.push_back(sexpr(eb.getExpressions()[i], {}));
+                out["frags"] = fr;
+            }
+            out["errors"] = errs_from(d.get_errors(), ne);
+            out["warnings"] = errs_from(d.get_warnings(), nw);
+        });
+        // the client has read the diagnostics of this call and clears them: a document that still holds errors is a different
+        // input for the next call (PropertyBuilder drops every property while Document::has_errors())
+        if (auto it = slots.find(ev.value("slot", "A")); it != slots.end() && it->second.doc) {
+            it->second.doc->clear_errors();
+            it->second.doc->clear_warnings();
+        }
+    } else if (kind == "drop") {
+        slots.erase(ev.value("slot", "A"));
+        out["ret"] = 0;
     } else if (kind == "xmlthrowing") {
         // whole XML document through the client builder
         std::string buf = ev["buf"];
@@ -248,6 +321,8 @@ static std::string global_state()
     g += " line=" + std::to_string(tracker.line) + " offset=" + std::to_string(tracker.offset) +
          " position=" + std::to_string(tracker.position) + " path=" + (tracker.path ? *tracker.path : std::string("<null>"));
     g += " errno=" + std::to_string(e);
+    for (auto& [name, sl] : slots)
+        g += " slot:" + name + "=" + sl.model + "@" + std::to_string(sl.loaded_at) + "#" + std::to_string(sl.uses);
     return g;
 }
 
